@@ -6,14 +6,18 @@ Lens1235 == <<1, 2, 3, 5>>
 
 \* six classes: one of each kind, answering at the first and at the last probe length
 Classes6 == {Absent, AbsentHere, LenErrAlw, Silent, AnswersAt(1, TRUE, FALSE), AnswersAt(5, FALSE, FALSE)}
+\* the five kinds of behaviour (quick tier)
+Classes5 == {Absent, AbsentHere, LenErrAlw, Silent, AnswersAt(2, TRUE, FALSE)}
 \* all twelve
 Classes12 == {Absent, AbsentHere, LenErrAlw, Silent} \cup
              {AnswersAt(k, p, FALSE) : k \in {1, 2, 3, 5}, p \in BOOLEAN}
+\* plus services that ignore too short requests
+Classes16 == Classes12 \cup {QuietBelow(k, p) : k \in {2, 5}, p \in BOOLEAN}
 \* with ECUs that fall back to the default session after answering
 ClassesDrop == {Absent, LenErrAlw, AnswersAt(2, TRUE, FALSE), AnswersAt(2, TRUE, TRUE), AnswersAt(3, FALSE, TRUE)}
 Classes3 == {Absent, LenErrAlw, AnswersAt(2, TRUE, FALSE)}
 Classes2 == {Absent, AnswersAt(2, TRUE, FALSE)}
-ClassesSim == Classes6 \cup {AnswersAt(2, TRUE, TRUE), AnswersAt(3, FALSE, FALSE)}
+ClassesSim == Classes6 \cup {AnswersAt(2, TRUE, TRUE), QuietBelow(3, FALSE)}
 
 Cfg(has, ss, sa, sk, ri, ck) ==
   [has |-> has, sessions |-> ss, skipAll |-> sa, skip |-> sk, respIds |-> ri, check |-> ck]
